@@ -288,6 +288,32 @@ def psbt_and_view(ctx):
                 if got != exp:
                     st.violation("C09/psbt/" + ("taproot" if k == "tr" else "ecdsa"), {"psbt": label, "input": j, "ht": ht}, got, exp)
                 st.nontrivial += 1
+                # the same with the input itself asking for a type: an explicit argument wins (0 is a type, not an absence),
+                # no argument means the input's own
+                import copy
+                for fv in ((1, 0x83, 2) if k != "tr" else (0, 1, 0x83, 2)):
+                    q = copy.deepcopy(p)
+                    q.inputs[j].sig_hash_type = fv
+                    eff2 = ht if ht is not None else fv
+                    if k == "pkh":
+                        exp2 = S.legacy(tx, j, p2pkh, eff2)
+                    elif k == "wpkh":
+                        exp2 = S.segwit_v0(tx, j, p2pkh, eff2, prev[j][0])
+                    else:
+                        exp2 = S.taproot(tx, j, prev, eff2)
+                    st.evals += 1
+                    st.nontrivial += 1
+                    for via in ("object", "view"):
+                        try:
+                            if via == "object":
+                                got2 = f(q, j, hash_type=ht)
+                            else:
+                                v2 = PsbtView(q.serialize())
+                                got2 = (v2.taproot_sig_hash if k == "tr" else v2.ecdsa_sig_hash)(j, hash_type=ht)
+                        except errs:
+                            got2 = None
+                        if got2 != exp2:
+                            st.violation("C09/psbt/" + ("taproot" if k == "tr" else "ecdsa") + "/input-field-vs-argument", {"psbt": label, "input": j, "argument": ht, "field": fv, "via": via}, got2, exp2)
         # E2: every sequence of view calls of length <= 3; each answer must be the parsed object's, whatever was read before
         nin, nout = len(kinds), 2
         calls = {}
